@@ -265,3 +265,50 @@ def replay_context(ctx, path):
 
 
 F['C16'] = dict(custom=run_context, custom_replay=replay_context)
+
+
+# ---------------------------------------------------------------------------------------------------------------------
+# C11 (lock-discipline projection only, level exploration): every driver is run under the controlled scheduler with a
+# strategy that keeps goroutines parked inside critical sections while the others run towards the same locks; the
+# controller records which goroutines are simultaneously inside critical sections; TLC checks every such record against
+# the lock table of LockTV.tla
+LOCK_RUNS = [('buffer', 'fifo'), ('buffer', 'close'), ('buffer', 'wake'), ('channel', 'main'), ('notifier', 'main'), ('workers', 'main'),
+             ('worker', 'main'), ('exclusive', 'main'), ('pubsub', 'main'), ('caster', 'main')]
+
+
+def run_locks(ctx):
+    build_harness(ctx)
+    known2 = 0
+    for driver, profile in LOCK_RUNS:
+        n = 25 if ctx.quick else 400
+        out, st = run_harness(ctx, driver, f'locks_{driver}_{profile}', mode='c', profile=profile, seed=ctx.seed, n=n, locks=1)
+        trace = f'{out}/trace.ndjson'
+        nlines, bad = tv_cases(ctx, 'LockTV', trace, f'tv_{driver}_{profile}')
+        m = re.search(r'<<"TVKNOWN2", (\d+)>>', open(f'{ctx.work}/tv_{driver}_{profile}/tlc.out').read())
+        k2 = int(m.group(1)) if m else 0
+        known2 += k2
+        lines = open(trace).read().splitlines()
+        nrec = sum(1 for ln in lines if '"ev":"locks"' in ln)
+        ctx.evaluations += st['executions']
+        ctx.distinct_nontrivial += k2
+        ctx.conf.append(dict(driver=driver, profile=profile, executions=st['executions'], records=nrec, records_with_two_known_holders=k2, conflicting=len(bad)))
+        if len(ctx.samples) < 3:
+            ctx.samples += [json.loads(ln) for ln in lines if '"ev":"locks"' in ln][:1]
+        bad_execs = set()
+        for b in bad:
+            s_ = b - 1
+            while s_ > 0 and '"ev":"reset"' not in lines[s_]:
+                s_ -= 1
+            ex = json.loads(lines[s_]).get('exec')
+            if ex in bad_execs or len(bad_execs) >= 10:
+                continue
+            bad_execs.add(ex)
+            ei = next((x for x in st.get('exec_index', []) if x['exec'] == ex), {})
+            report(ctx, f'locks:{driver}:{len(bad_execs)}', f'two goroutines were inside critical sections of the same mutex at the same time: {lines[b - 1][:400]}',
+                   {'exec.json': dict(ei, mode='c', driver=driver, profile=profile, locks=1, spec='LockTV'), 'rejected_event.json': lines[b - 1]})
+        ctx.traces_ok += st['executions'] - len(bad_execs)
+    if known2 == 0:
+        raise Infra('no record with two goroutines inside known critical sections: the lock table or the hooks are out of date')
+
+
+F['C11'] = dict(custom=run_locks, custom_replay=lambda ctx, path: run_locks(ctx))
